@@ -28,6 +28,7 @@ LEVEL_TEXT = (
     ' Included: values returned by user-supplied callables are never modified in place (R1b), and the MSM shape rule of C07 (the inverse-variance weight is the reciprocal of a mean of squares of the same centred moments).'
     " (R7) per-coordinate callables built in a loop / comprehension bind the coordinate's value when built (no late-binding closure that outlives its iteration); the 18 moments are finite (nan_to_num rule of C20), which 'zero when simulated equals real' needs for constant or linear series."
     ' Included from C07: the likelihood pipeline oracle and the Minkowski / Fourier formula rules (invariance under member reordering, non-negativity and the zero case rest on them). (R8) every loss constructor forwards weights / filters to the base-class parameters of the same name; the process-wide numpy error mode is never changed without a restoring finally.'
+    " The module-state clause exempts a memo keyed injectively by value whose entries nobody writes into; the filter-pairing rule reads member loops through the canonical loop binding."
 )
 TECHNIQUE = "alias/mutation analysis + effect (self-store) analysis + normal forms + order-class abstract evaluation"
 
